@@ -830,4 +830,188 @@ theorem close_inv13 {s s' : State} {fin : Bool} {k : Nat} {c : Caller} {X : Nat}
         · rw [ha]; simp only [allocSum]; omega
         · simp only [Nat.add_zero]; exact eo i
 
+theorem extendOne_effect {s s' : State} {g : Bool} {diff ns : Nat} {d d' : BA}
+    (h : extendOne s g diff ns d = .ok (s', d')) :
+    s'.allocs = s.allocs ∧ s'.nallocs = s.nallocs ∧ d'.blobber = d.blobber ∧ d'.size = ns ∧
+    ∃ b sp, s.blobbers d.blobber = some b ∧ s.sps d.blobber = some sp ∧
+      s'.blobbers = s.blobbers.set d.blobber (some { b with allocated := if g then b.allocated + diff else b.allocated }) ∧
+      s'.sps = s.sps.set d.blobber (some { sp with offers := sp.offers + d'.offer - d.offer }) ∧
+      d.offer ≤ sp.offers + d'.offer ∧ (g = true → b.allocated + (diff : Int) ≤ (b.cap : Int) ∧ b.dead = false) := by
+  unfold extendOne at h
+  split at h
+  · rename_i b sp hb hsp
+    split at h
+    · cases h
+    · split at h
+      · cases h
+      · rename_i hg
+        dsimp only at h
+        split at h
+        · cases h
+        · rename_i ho
+          cases h
+          refine ⟨rfl, rfl, rfl, rfl, b, sp, hb, hsp, rfl, rfl, by omega, fun hgt => ?_⟩
+          subst hgt
+          simp only [Bool.true_and, Bool.or_eq_true, decide_eq_true_eq, not_or, Bool.not_eq_true] at hg
+          exact ⟨by omega, hg.1⟩
+  · cases h
+
+theorem extendAll_effect {g : Bool} {diff ns : Nat} {l : List BA} : ∀ {s s' : State} {l' : List BA},
+    extendAll g diff ns s l = .ok (s', l') →
+    s'.allocs = s.allocs ∧ s'.nallocs = s.nallocs ∧
+    (∀ i, (s'.blobbers i).map (·.allocated) = (s.blobbers i).map (fun b => b.allocated + (((if g then diff else 0) * cnt i l : Nat) : Int))) ∧
+    (∀ i, (s'.sps i).map (fun sp => sp.offers + baSum BA.offer i l) = (s.sps i).map (fun sp => sp.offers + baSum BA.offer i l')) ∧
+    (∀ i, baSum BA.size i l' = ns * cnt i l) ∧
+    (∀ i, s.blobbers i = none → cnt i l = 0) ∧ (∀ i, s.sps i = none → cnt i l = 0) ∧ (∀ i, cnt i l' = cnt i l) := by
+  induction l with
+  | nil =>
+    intro s s' l' h
+    simp only [extendAll] at h; cases h
+    refine ⟨rfl, rfl, fun i => ?_, fun i => rfl, fun i => by simp [baSum, cnt], fun _ _ => rfl, fun _ _ => rfl, fun _ => rfl⟩
+    cases s.blobbers i <;> simp [cnt]
+  | cons d ds ih =>
+    intro s s' l' h
+    simp only [extendAll] at h
+    split at h
+    · cases h
+    · rename_i s1 d1 h1
+      split at h
+      · cases h
+      · rename_i s2 ds2 h2
+        cases h
+        obtain ⟨e1, e2, edb, esz, b, sp, hb, hsp, ebl, esp, hoff, _⟩ := extendOne_effect h1
+        obtain ⟨f1, f2, fb, fo, fs, fn1, fn2, fc⟩ := ih h2
+        refine ⟨f1.trans e1, f2.trans e2, fun i => ?_, fun i => ?_, fun i => ?_, fun i hn => ?_, fun i hn => ?_, fun i => ?_⟩
+        · rw [fb i, ebl]
+          by_cases hi : i = d.blobber
+          · subst hi
+            rw [view_set_same, hb]
+            simp only [Option.map_some, cnt, if_true]
+            congr 1
+            cases g <;> simp only [if_true, if_false, Bool.false_eq_true, Nat.zero_mul, Nat.mul_add, Nat.mul_one] <;> omega
+          · have hdi : ¬ d.blobber = i := fun e => hi e.symm
+            rw [view_set_other _ _ _ hi]
+            simp only [cnt, hdi, if_false, Nat.zero_add]
+        · have := fo i
+          rw [esp] at this
+          by_cases hi : i = d.blobber
+          · subst hi
+            rw [view_set_same] at this
+            rw [hsp]
+            cases hs' : s'.sps d.blobber with
+            | none => rw [hs'] at this; cases this
+            | some sp' =>
+              rw [hs'] at this
+              simp only [Option.map_some, Option.some.injEq, baSum, if_true, edb] at this ⊢
+              omega
+          · have hdi : ¬ d.blobber = i := fun e => hi e.symm
+            have hdi1 : ¬ d1.blobber = i := by rw [edb]; exact hdi
+            rw [view_set_other _ _ _ hi] at this
+            simp only [baSum, hdi, hdi1, if_false, Nat.zero_add]
+            exact this
+        · simp only [baSum, cnt, edb, esz, fs i]
+          split <;> simp [Nat.mul_add]
+        · have hij : ¬ i = d.blobber := by intro e; subst e; rw [hb] at hn; cases hn
+          have hdi : ¬ d.blobber = i := fun e => hij e.symm
+          simp only [cnt, hdi, if_false, Nat.zero_add]
+          apply fn1; rw [ebl, Map.set_other _ _ hij]; exact hn
+        · have hij : ¬ i = d.blobber := by intro e; subst e; rw [hsp] at hn; cases hn
+          have hdi : ¬ d.blobber = i := fun e => hij e.symm
+          simp only [cnt, hdi, if_false, Nat.zero_add]
+          apply fn2; rw [esp, Map.set_other _ _ hij]; exact hn
+        · simp only [cnt, edb, fc i]
+
+/-- `adjustChallengePool` changes challenge values only -/
+theorem adjust_measures {m : BA → Nat} (hm : ∀ (d : BA) (c : Nat), m { d with cv := c } = m d) {bas : List BA} :
+    ∀ {xs : List Int} {wp cp mtc mb : Nat} {bas' : List BA} {wp' cp' mtc' mb' : Nat},
+    adjust bas xs wp cp mtc mb = some (bas', wp', cp', mtc', mb') → ∀ i, baSum m i bas' = baSum m i bas := by
+  induction bas with
+  | nil =>
+    intro xs wp cp mtc mb bas' wp' cp' mtc' mb' h i
+    cases xs with
+    | nil => simp only [adjust] at h; cases h; rfl
+    | cons x xs => simp [adjust] at h
+  | cons d ds ih =>
+    intro xs wp cp mtc mb bas' wp' cp' mtc' mb' h i
+    cases xs with
+    | nil => simp [adjust] at h
+    | cons x xs =>
+      simp only [adjust] at h
+      split at h
+      · split at h
+        · cases h
+        · split at h
+          · cases h
+          · rename_i _ _ ds' _ _ _ _ hrec
+            cases h
+            simp only [baSum, hm, ih hrec i]
+      · split at h
+        · cases h
+        · split at h
+          · cases h
+          · rename_i _ _ ds' _ _ _ _ hrec
+            cases h
+            simp only [baSum, hm, ih hrec i]
+
+/-- all blobber allocations of the list have the size of the first one -/
+def Uniform (l : List BA) : Prop := ∀ d0 ds, l = d0 :: ds → ∀ d, d ∈ l → d.size = d0.size
+
+theorem baSum_size_uniform {l : List BA} {z : Nat} (h : ∀ d, d ∈ l → d.size = z) (i : Nat) : baSum BA.size i l = z * cnt i l := by
+  induction l with
+  | nil => simp [baSum, cnt]
+  | cons d ds ih =>
+    have hd := h d (List.mem_cons_self ..)
+    have := ih (fun x hx => h x (List.mem_cons_of_mem _ hx))
+    simp only [baSum, cnt, this, hd]
+    split <;> simp [Nat.mul_add]
+
+theorem bsize_zero {data : Nat} (h : data ≠ 0) : bsize 0 data = 0 := by
+  unfold bsize
+  apply Nat.div_eq_of_lt
+  omega
+
+theorem updExtend_inv13 {s s' : State} {k size : Nat} {ds : List Int}
+    (h : updExtend s k size ds = .ok s') (hi : Inv13 s)
+    (hu : ∀ a, s.allocs k = some a → Uniform a.bas) : Inv13 s' := by
+  unfold updExtend at h
+  split at h
+  · rename_i a cp ha hcp
+    have hk := hi.1.lt ha
+    have hua := hu a ha
+    split at h
+    · cases h
+    · rename_i d0 dtail hbas
+      split at h
+      · cases h
+      · rename_i hdata
+        dsimp only at h
+        split at h
+        · cases h
+        · rename_i s1 bas1 h1
+          split at h
+          · cases h
+          · rename_i bas2 wp' cp' mtc' mb' h2
+            cases h
+            obtain ⟨f1, f2, fb, fo, fs, fn1, fn2, fc⟩ := extendAll_effect h1
+            have msz := adjust_measures (m := BA.size) (fun _ _ => rfl) h2
+            have mof := adjust_measures (m := BA.offer) (fun _ _ => rfl) h2
+            have huni : ∀ i, baSum BA.size i a.bas = d0.size * cnt i a.bas :=
+              baSum_size_uniform (fun d hd => hua d0 dtail hbas d hd)
+            have hdiff : (if decide (size > 0) = true then bsize size a.data else 0) = bsize size a.data := by
+              by_cases hs : size > 0
+              · simp [hs]
+              · have : size = 0 := by omega
+                subst this; simp [bsize_zero hdata]
+            refine inv13_set_delta hk (by simp only; rw [f1]) (by simp only; exact f2) (fun i => ?_) (fun i => ?_) hi
+            · refine ⟨bsize size a.data * cnt i a.bas, 0, ?_, ?_, fun hn => by rw [fn1 i hn]; exact ⟨Nat.mul_zero _, rfl⟩⟩
+              · rw [ha]; simp only [allocSum]
+                rw [msz i, fs i, huni i, Nat.add_mul]; omega
+              · simp only; rw [fb i, hdiff]; congr 1; funext b; omega
+            · refine ⟨baSum BA.offer i bas2, baSum BA.offer i a.bas, ?_, ?_, fun hn => ?_⟩
+              · rw [ha]; simp only [allocSum]; omega
+              · simp only; rw [mof i]; exact fo i
+              · have hz := fn2 i hn
+                exact ⟨by rw [mof i]; exact baSum_of_cnt_zero (by rw [fc i]; exact hz), baSum_of_cnt_zero hz⟩
+  · cases h
+
 end ZChain.Storage
